@@ -10,7 +10,8 @@
 (*   str / bin / uri <<bytes>> (str, uri: UTF-8)                           *)
 (*   date <<Y, M, D, h, m, s, us>> (the UTC instant in civil fields)       *)
 (*   date8 <<8 bytes>>: a date as it sits in the binary form (LE double of  *)
-(*        epoch seconds, opaque to TLC; resolved through a leaf table)      *)
+(*        epoch seconds); decoded by TLC in exact arithmetic to             *)
+(*   dateus <<neg, bits..>>: the instant in integer microseconds            *)
 (*   arr <<values>> | map << <<key bytes, value>>, ... >>                  *)
 (*                                                                         *)
 (* Binary  : Bin(x) the format's bytes, PBin the reference parser.         *)
@@ -41,10 +42,78 @@ I32Bytes(n) == IF n >= 0 THEN BE32(n)
                ELSE LET m == (n + 2147483647) + 1 IN   \* n + 2^31 in 0..2^31-1
                     <<128 + m \div 16777216, (m \div 65536) % 256, (m \div 256) % 256, m % 256>>
 
+\* ------------------------------------------------- instants in integer microseconds
+\* TLC integers are 32 bit; an instant (microseconds since 1970-01-01T00:00:00Z, possibly negative) is
+\* <<neg>> \o limbs: sign flag, then the magnitude in limbs of 13 bits, least significant first, no leading
+\* zero limb (a limb times a constant below 2^17 stays below 2^31).
+LB == 8192
+Lm(a, i) == IF i >= 1 /\ i <= Len(a) THEN a[i] ELSE 0
+RECURSIVE LAdd(_, _, _)
+LAdd(a, b, c) == IF Len(a) = 0 /\ Len(b) = 0 THEN (IF c = 0 THEN <<>> ELSE <<c>>)
+                 ELSE LET t == Lm(a, 1) + Lm(b, 1) + c IN
+                      <<t % LB>> \o LAdd(IF Len(a) > 0 THEN Tail(a) ELSE a, IF Len(b) > 0 THEN Tail(b) ELSE b, t \div LB)
+RECURSIVE LSub(_, _, _)
+\* a - b - borrow, for a >= b
+LSub(a, b, w) == IF Len(a) = 0 THEN <<>>
+                 ELSE LET t == a[1] - Lm(b, 1) - w IN
+                      <<IF t < 0 THEN t + LB ELSE t>> \o LSub(Tail(a), IF Len(b) > 0 THEN Tail(b) ELSE b, IF t < 0 THEN 1 ELSE 0)
+RECURSIVE LMulC(_, _, _)
+\* a * k + c for a constant 0 <= k < 2^17
+LMulC(a, k, c) == IF Len(a) = 0 THEN (IF c = 0 THEN <<>> ELSE <<c % LB>> \o LMulC(a, k, c \div LB))
+                  ELSE LET t == a[1] * k + c IN <<t % LB>> \o LMulC(Tail(a), k, t \div LB)
+RECURSIVE LOfNat(_)
+LOfNat(n) == IF n = 0 THEN <<>> ELSE <<n % LB>> \o LOfNat(n \div LB)
+RECURSIVE LTrim(_)
+LTrim(a) == IF Len(a) > 0 /\ a[Len(a)] = 0 THEN LTrim(SubSeq(a, 1, Len(a) - 1)) ELSE a
+SInst(neg, mag) == LET m == LTrim(mag) IN <<IF neg /\ Len(m) > 0 THEN 1 ELSE 0>> \o m
+UsErr == <<2>>
+
+\* days since 1970-01-01 of a proleptic Gregorian date (may be negative)
+DaysFromCivil(y, m, d) ==
+    LET yy == IF m <= 2 THEN y - 1 ELSE y
+        era == yy \div 400
+        yoe == yy - era * 400
+        mp == IF m > 2 THEN m - 3 ELSE m + 9
+        doy == (153 * mp + 2) \div 5 + d - 1
+        doe == yoe * 365 + yoe \div 4 - yoe \div 100 + doy IN
+    era * 146097 + doe - 719468
+Mega(a) == LMulC(LMulC(a, 1000, 0), 1000, 0)
+\* civil UTC fields <<Y, M, D, h, m, s, us>> -> instant
+CivilUs(c) ==
+    LET days == DaysFromCivil(c[1], c[2], c[3])
+        inday == LAdd(Mega(LOfNat(c[4] * 3600 + c[5] * 60 + c[6])), LOfNat(c[7]), 0)      \* < 86400 * 10^6
+        dayus(n) == Mega(LMulC(LOfNat(n), 86400, 0)) IN
+    IF days >= 0 THEN SInst(FALSE, LAdd(dayus(days), inday, 0))
+    ELSE SInst(TRUE, LSub(dayus(-days), inday, 0))
+\* the 8 bytes of a little-endian IEEE double of epoch SECONDS -> instant, rounded to the nearest microsecond
+\* (ties to even), in exact arithmetic: (-1)^s * M * 2^(e - 1075) * 10^6
+DateUs(d8) ==
+    LET neg == d8[8] >= 128
+        e == (d8[8] % 128) * 16 + d8[7] \div 16
+        top == (d8[7] % 16) + (IF e = 0 THEN 0 ELSE 16)                  \* the implicit leading one
+        M == LMulC(LMulC(LMulC(LMulC(LMulC(LMulC(LOfNat(top), 256, d8[6]), 256, d8[5]), 256, d8[4]), 256, d8[3]), 256, d8[2]), 256, d8[1])
+        P == LTrim(Mega(M))
+        sh == 1075 - (IF e = 0 THEN 1 ELSE e)                            \* P / 2^sh
+        w == sh \div 13
+        r == sh % 13
+        lo == 2 ^ r
+        q == [i \in 1..(IF Len(P) > w THEN Len(P) - w ELSE 0) |-> Lm(P, w + i) \div lo + (Lm(P, w + i + 1) % lo) * (LB \div lo)]
+        lower == \E i \in 1..Len(P) : i <= w - (IF r = 0 THEN 1 ELSE 0) /\ P[i] # 0
+        half == IF r > 0 THEN (Lm(P, w + 1) \div (lo \div 2)) % 2 ELSE Lm(P, w) \div (LB \div 2)
+        rest == lower \/ (IF r > 0 THEN Lm(P, w + 1) % (lo \div 2) # 0 ELSE Lm(P, w) % (LB \div 2) # 0)
+        odd == Len(q) > 0 /\ q[1] % 2 = 1
+        up == half = 1 /\ (rest \/ odd) IN
+    IF e = 2047 \/ sh <= 0 THEN UsErr
+    ELSE SInst(neg, IF up THEN LAdd(q, <<1>>, 0) ELSE q)
+IsDateish(x) == x.t \in {"date", "dateus"}
+InstUs(x) == IF x.t = "date" THEN (IF Len(x.v) = 7 THEN CivilUs(x.v) ELSE UsErr) ELSE x.v
+
 \* Structural equality that never compares payloads of different kinds (TLC refuses to compare an
 \* integer with a record; projections of arbitrary implementation results may differ in kind anywhere)
 RECURSIVE Same(_, _), SameSeq(_, _), SameKV(_, _)
-Same(a, b) == IF a.t # b.t THEN FALSE
+Same(a, b) == IF IsDateish(a) /\ IsDateish(b)
+              THEN (IF a.t = "date" /\ b.t = "date" THEN a.v = b.v ELSE InstUs(a) = InstUs(b))   \* the same INSTANT, in integer microseconds
+              ELSE IF a.t # b.t THEN FALSE
               ELSE IF a.t = "arr" THEN SameSeq(a.v, b.v)
               ELSE IF a.t = "map" THEN SameKV(a.v, b.v)
               ELSE a.v = b.v
@@ -84,7 +153,8 @@ DistinctSorted(s) == Len(s) < 2 \/ (LexLess(s[1][1], s[2][1]) /\ DistinctSorted(
 \* date <-> date8 through a table of <<d8, civil>>; an unknown leaf becomes Err
 RECURSIVE FromWire(_, _), FromWireSeq(_, _), FromWireKV(_, _)
 FromWire(x, dt) ==
-    IF x.t = "date8" THEN LET r == Lookup(dt, x.v) IN IF r[1] = "some" THEN V("date", r[2]) ELSE Err
+    \* (dt, the former table of Python-decoded doubles, is no longer consulted: TLC decodes the double itself)
+    IF x.t = "date8" THEN (IF Len(x.v) = 8 THEN V("dateus", DateUs(x.v)) ELSE Err)
     ELSE IF x.t = "arr" THEN V("arr", FromWireSeq(x.v, dt))
     ELSE IF x.t = "map" THEN V("map", FromWireKV(x.v, dt))
     ELSE x
